@@ -131,3 +131,25 @@ func init() {
 		return nil
 	})
 }
+
+// backoff (M7): Retry calls f until it returns nil, at most twice.
+const backoffPkg = "github.com/cenkalti/backoff/v4"
+
+func init() {
+	reg(backoffPkg+".NewExponentialBackOff", func(p *Path, _ *frame, a []Value) Value {
+		cell := new(Value)
+		*cell = p.zero(p.eng.namedType(backoffPkg, "ExponentialBackOff"))
+		return cell
+	})
+	reg(backoffPkg+".Permanent", func(p *Path, _ *frame, a []Value) Value { return a[0] })
+	reg(backoffPkg+".Retry", func(p *Path, caller *frame, a []Value) Value {
+		var err Value = Iface{}
+		for i := 0; i < 2; i++ {
+			err = p.call(caller, a[0], nil)
+			if isNilPtr(err) {
+				return Iface{}
+			}
+		}
+		return err
+	})
+}
